@@ -75,6 +75,11 @@ CHECKS["C10"] = dict(level="model_checking", design="5 C10",
    note="Memstore-inclusive queries only (disk-only results depend on each node's own flush history). With ORDER BY + LIMIT the sequence of sort keys is compared (ties at the cut may be broken either way). Virtual clocks of all nodes are advanced together.",
    technique="TLA+ model checking (TLC) of the replication design + differential replay: in-process cluster of the real code vs standalone")
 
+CHECKS["C19"] = dict(level="model_checking", design="5 C19",
+   text="spec/Access.tla is a state machine of the environment of a node (configuration, clock, GitHub membership and outages of its membership API, sessions issued by real OAuth code flows) in which every request (rpc query / follow / handler registration with no, a wrong or the right password; http /run /async /immediate /cached with no, a wrong or the right static token and no, a forged or any issued session cookie) is classified by the statement (Must) and by a model of the code (Decide); TLC checks Decide against Must in every reachable state (and rejects the model of the code as shipped), and every distinct state is replayed, with a shortest history reaching it and the whole batch of requests and login attempts, on a real rpc server over 127.0.0.1 and a real web handler with a stub GitHub: a request that must be refused and receives rows, a WAL entry, the text of a cluster query or a session is a violation.",
+   note="Exhaustive over the states of the specification for MaxNow/SessionLen/MaxSteps = 2/1/5 (quick) or 4/2/8 (thorough). Clock ticks are emulated by re-encoding the issued session with an earlier expiration; GitHub is a stub transport; cookie cryptography is not examined. Refusing valid credentials is reported but is not a violation of the statement.",
+   technique="TLA+ model checking (TLC) of the access rules + replay of every distinct specification state on the real rpc server and web handler")
+
 NOT_YET = {}
 
 
